@@ -23,10 +23,6 @@ def has_empty_level(ops_prefix):
     return False
 
 
-def has_empty_filter(ops_prefix, impl=None, spec=None):
-    return any(len(op.split()) > 2 and op.split()[1] in ('sub', 'unsub', 'unsuball') and op.split()[2] == '-' for op in ops_prefix)
-
-
 def topics_oracle(op, impl, spec):
     return spec == '*' or impl == spec
 
@@ -40,7 +36,7 @@ register(Prop(
     runs=[Run('topics', quick=60000, thorough=400000, seeds_thorough=8),
           Run('topics-sweep', quick=3, thorough=4, seeds_thorough=1, exhaustive=True)],
     oracle=topics_oracle, nontrivial=topics_nontrivial, spec_total=False,
-    classes={'empty_filter': has_empty_filter, 'empty_level': has_empty_level},
+    classes={'empty_level': has_empty_level},
     assumptions=[
         "Go maps modelled as association lists with unique keys; results of map iteration compared as sorted lists",
         "subscribers are compared by pointer identity (the kinds the library uses); the reflect-based `equal` for other kinds is not modelled",
